@@ -31,6 +31,9 @@ FloatTerms == {[k |-> kk, f |-> f] : kk \in {"f32", "f64"}, f \in {FZero(1), FZe
 Scalars == IntTerms \cup FloatTerms
   \cup {[k |-> "bool", b |-> TRUE], [k |-> "bool", b |-> FALSE], [k |-> "char", c |-> 97], [k |-> "char", c |-> 233], [k |-> "char", c |-> 128512],
         [k |-> "str", cs |-> <<>>], [k |-> "str", cs |-> S("k")], [k |-> "str", cs |-> <<104, 233, 128512>>],
+        \* strings that look like other kinds of data stay strings
+        [k |-> "str", cs |-> S("2015-07-30T03:26:13Z")], [k |-> "str", cs |-> S("2024-03-10T08:30:00+02:00")], [k |-> "str", cs |-> S("1.5")],
+        [k |-> "str", cs |-> S("true")], [k |-> "str", cs |-> S("none")], [k |-> "str", cs |-> S("i1")], [k |-> "str", cs |-> S("PT1S")],
         [k |-> "bytes", bs |-> <<>>], [k |-> "bytes", bs |-> <<0, 255, 7>>],
         [k |-> "none"], [k |-> "unit"], [k |-> "unit_struct", name |-> S("U")], [k |-> "unit_variant", name |-> S("E"), variant |-> S("A")],
         [k |-> "fail", msg |-> S("nope")], [k |-> "seq", xs |-> <<>>], [k |-> "map", kv |-> <<>>], [k |-> "struct", name |-> S("S"), fields |-> <<>>]}
@@ -45,6 +48,8 @@ Wraps(x) == {
   [k |-> "tuple_struct", name |-> S("T"), xs |-> <<x>>], [k |-> "tuple_variant", name |-> S("E"), variant |-> S("T"), xs |-> <<S0, x>>],
   [k |-> "map", kv |-> << <<K("k"), x>> >>], [k |-> "map", kv |-> << <<x, S0>> >>],
   [k |-> "map", kv |-> << <<K("k"), S0>>, <<K("a"), x>>, <<K("k"), x>> >>],
+  \* keys and values emitted separately, keys not in order, a key repeated
+  [k |-> "mapkv", kv |-> << <<K("z"), S0>>, <<K("a"), x>>, <<K("m"), S0>>, <<K("a"), S0>>, <<K("b"), x>> >>],
   [k |-> "struct", name |-> S("S"), fields |-> << <<S("f"), x>> >>], [k |-> "struct", name |-> S("S"), fields |-> << <<S("z"), S0>>, <<S("a"), x>> >>],
   [k |-> "struct_variant", name |-> S("E"), variant |-> S("SV"), fields |-> << <<S("f"), x>> >>] }
 
